@@ -40,6 +40,8 @@ pub struct Style {
     pub annotate_coparams: bool,
     /// wrap sub-computations in `begin … end`
     pub blocks: bool,
+    /// print a function telescope as one comatch clause of value patterns: `comatch | p q r => M end`
+    pub fn_as_comatch: bool,
 }
 
 /// File splitting: closed literal sub-values are moved to provider files and imported.
@@ -643,6 +645,22 @@ impl<'a> Printer<'a> {
                 self.hint = "let-body";
                 self.comp(n, t);
             }
+            | Comp::Fn(..) if self.style.fn_as_comatch => {
+                self.p("comatch");
+                self.p("|");
+                let mut cur = c;
+                let mut ty = t;
+                loop {
+                    let (Comp::Fn(p, a, m), CTy::Arrow(_, b)) = (cur, ty) else { break };
+                    self.pat_ann(p, a);
+                    cur = m;
+                    ty = b;
+                }
+                self.p("=>");
+                self.hint = "fn-body";
+                self.comp(cur, ty);
+                self.p("end");
+            }
             | Comp::Fn(..) => {
                 self.p("fn");
                 let mut cur = c;
@@ -900,6 +918,76 @@ impl<'a> Printer<'a> {
         }
         self.p("(");
         self.comp(&body, &CTy::OS);
+        self.p(":");
+        self.p("OS");
+        self.p(")");
+        self.p("\n");
+        self.p("end");
+        self.p("\n");
+    }
+
+    /// As `program_as_block`, but the first `k` lets form an inner block in which the flagged ones are
+    /// `param (x : T) that` contributions, the block being applied to their values in parameter order:
+    /// `((begin … end : T1 -> … -> OS) v1 …)`.  Type declarations stay in the outer block.  `order` lists
+    /// the inner contributions (0..k) in print order; parameters must keep their relative order in it.
+    pub fn program_as_param_block(&mut self, k: usize, order: &[usize], params: &[bool]) {
+        let mut lets = vec![];
+        let mut body = self.prog.main.clone();
+        for _ in 0..k {
+            let Comp::Let(p, a, v, n) = body else { panic!("harness: block program with fewer lets than promised") };
+            lets.push((p, a, v));
+            body = *n;
+        }
+        self.p("begin");
+        self.p("\n");
+        self.decls();
+        self.p("(");
+        self.p("(");
+        self.p("begin");
+        self.p("\n");
+        for i in order {
+            let (p, a, v) = lets[*i].clone();
+            if params[*i] {
+                self.p("param");
+                self.p("(");
+                self.pat(&p);
+                self.p(":");
+                self.vty(&a, 5);
+                self.p(")");
+            } else {
+                self.p(if self.style.def_values { "def" } else { "let" });
+                self.pat(&p);
+                self.p(":");
+                self.vty(&a, 5);
+                self.p("=");
+                self.val(&v, &a);
+            }
+            self.p("that");
+            self.p("\n");
+        }
+        self.p("(");
+        self.comp(&body, &CTy::OS);
+        self.p(":");
+        self.p("OS");
+        self.p(")");
+        self.p("\n");
+        self.p("end");
+        self.p(":");
+        for i in 0..k {
+            if params[i] {
+                let a = lets[i].1.clone();
+                self.vty(&a, 3);
+                self.p("->");
+            }
+        }
+        self.p("OS");
+        self.p(")");
+        for i in 0..k {
+            if params[i] {
+                let (_, a, v) = lets[i].clone();
+                self.val(&v, &a);
+            }
+        }
         self.p(":");
         self.p("OS");
         self.p(")");
